@@ -22,6 +22,7 @@ SpuriousError(c, kind) == Finals(c) # {} /\ (\A f \in Finals(c) : Count(f.errs, 
 DuplicateTerminal(c) == \E kind \in TerminalKinds : Count(Obs(c).errs, kind) > 1
 NoCancelSent(c) == Finals(c) # {} /\ (\A f \in Finals(c) : <<"B", "cancel">> \in ToSet(f.wire)) /\ <<"B", "cancel">> \notin ToSet(Obs(c).wire)
 C04Problems(c) == (IF Hang(c) THEN {"hang"} ELSE {})
+   \cup (IF Obs(c).wedged THEN {"request-manager-loop-blocked"} ELSE {})
    \cup { "no-" \o k \o "-error" : k \in { kk \in {"client", "failed"} : MissingError(c, kk) } }
    \cup { "spurious-" \o k \o "-error" : k \in { kk \in TerminalKinds : SpuriousError(c, kk) } }
    \cup (IF DuplicateTerminal(c) THEN {"duplicate-terminal-error"} ELSE {})
